@@ -102,7 +102,13 @@ func replayAccept(p *acProg, fullOpts bool, rot int) {
 		p.Events = append(p.Events, ev)
 		return err == nil
 	}
-	guard := func(f func() error) (err error) {
+	// every call into naga is announced (so that a fatal error - e.g. a stack overflow, which no recover() catches - can be
+	// attributed to it by the parent process) and is skipped when an earlier attempt died in it
+	guardK := func(key string, f func() error) (err error) {
+		if t, dead := c08Crash[fmt.Sprintf("%d/%s", p.ID, key)]; dead {
+			return fmt.Errorf("%s", t)
+		}
+		c08Announce(p.ID, key)
 		defer func() {
 			if r := recover(); r != nil {
 				err = fmt.Errorf("panic: %v", r)
@@ -117,12 +123,12 @@ func replayAccept(p *acProg, fullOpts bool, rot int) {
 	var tokens *wgsl.Tokens
 	var ast *wgsl.Module
 	var m *ir.Module
-	ok := call("tokenize", guard(func() (e error) { tokens, e = wgsl.NewLexer(p.Src).Tokenize(); return }))
+	ok := call("tokenize", guardK("tokenize", func() (e error) { tokens, e = wgsl.NewLexer(p.Src).Tokenize(); return }))
 	if ok {
-		ok = call("parse", guard(func() (e error) { ast, e = wgsl.NewParser(tokens).Parse(); return }))
+		ok = call("parse", guardK("parse", func() (e error) { ast, e = wgsl.NewParser(tokens).Parse(); return }))
 	}
 	if ok {
-		ok = call("lower", guard(func() (e error) { m, e = naga.LowerWithSource(ast, p.Src); return }))
+		ok = call("lower", guardK("lower", func() (e error) { m, e = naga.LowerWithSource(ast, p.Src); return }))
 	}
 	if ok {
 		// two declarations with one (group, binding): from the description when there is one (the IR holds what naga read)
@@ -164,7 +170,7 @@ func replayAccept(p *acProg, fullOpts bool, rot int) {
 		}
 		sort.Strings(p.Feats)
 		var verrs []ir.ValidationError
-		verr := guard(func() (e error) {
+		verr := guardK("validate", func() (e error) {
 			verrs, e = naga.Validate(m)
 			if e == nil && len(verrs) > 0 {
 				e = fmt.Errorf("%d validation error(s)", len(verrs))
@@ -181,12 +187,12 @@ func replayAccept(p *acProg, fullOpts bool, rot int) {
 	if ok {
 		for _, o := range drive.AcceptOpts("spv") {
 			if o.Name == "onecall" {
-				_, err := drive.AcceptCompile("spv", o.Name, m, "*", 0, p.Consts, p.Ref)
+				err := guardK("backend/spv/onecall/*", func() (e error) { _, e = drive.AcceptCompile("spv", o.Name, m, "*", 0, p.Consts, p.Ref); return })
 				p.backendEvent("spv", o, "*", err)
 			}
 		}
 	}
-	call("onecall", guard(func() (e error) { _, e = naga.CompileWithOptions(p.Src, naga.DefaultOptions()); return }))
+	call("onecall", guardK("onecall", func() (e error) { _, e = naga.CompileWithOptions(p.Src, naga.DefaultOptions()); return }))
 	if ok {
 		for _, be := range drive.AcceptBackends {
 			opts := drive.AcceptOpts(be)
@@ -219,7 +225,7 @@ func replayAccept(p *acProg, fullOpts bool, rot int) {
 							st = stageOfName[e.St]
 						}
 					}
-					_, err := drive.AcceptCompile(be, o.Name, m, en, st, p.Consts, p.Ref)
+					err := guardK("backend/"+be+"/"+o.Name+"/"+en, func() (e error) { _, e = drive.AcceptCompile(be, o.Name, m, en, st, p.Consts, p.Ref); return })
 					p.backendEvent(be, o, en, err)
 				}
 			}
@@ -312,11 +318,13 @@ CHECK_DEADLOCK FALSE
 var (
 	agAllKinds  = []string{"uniform", "storage_ro", "storage_rw", "atomic", "tex2d", "texdepth", "texstorage", "sampler", "sampler_cmp", "workgroup", "private"}
 	agAllShapes = []string{"value_params", "ptr_function", "ptr_private", "ptr_compound_assign", "early_return", "switch_break_in_loop", "switch_break_noloop",
-		"switch_continue_in_loop", "shadow_let", "shadow_var", "shadow_param", "shadow_global", "shadow_builtin_fn", "user_fn_named_builtin",
-		"fwd_fn", "fwd_const", "fwd_struct", "fwd_alias", "alias_chain", "const_composite_index_member", "const_matrix_elem", "uses_res"}
+		"switch_continue_in_loop", "switch_nested_break_after", "switch_nested_break_direct", "switch_in_continuing", "switch_in_continuing_nested_break", "shadow_let", "shadow_var", "shadow_param", "shadow_global", "shadow_builtin_fn", "user_fn_named_builtin",
+		"fwd_fn", "fwd_const", "fwd_struct", "fwd_alias", "alias_chain", "const_composite_index_member", "const_matrix_elem",
+		"shadow_fwd_let_const", "shadow_fwd_const_const", "shadow_fwd_var_private", "shadow_fwd_let_override", "shadow_fwd_block", "shadow_fwd_loop",
+		"shadow_fwd_for_init", "shadow_block_leak", "uses_res"}
 	agAllOps = []string{"read", "write", "atomic", "array_length", "sample", "sample_level", "sample_cmp", "sample_cmp_level", "tex_load",
 		"tex_dims", "tex_store", "barrier", "derivative", "derivative_ctl", "discard", "call"}
-	agAllCtl    = []string{"top", "if_uniform", "if_nonuniform", "loop", "switch"}
+	agAllCtl    = []string{"top", "if_uniform", "if_nonuniform", "loop", "switch", "switch_nested"}
 	agAllStages = []string{"vertex", "fragment", "compute"}
 	agAllSyn    = []string{"tc_struct", "tc_params", "tc_args", "tc_tmpl_vec", "tc_tmpl_array", "tc_tmpl_var", "tc_tmpl_ptr", "tc_tmpl_tex",
 		"tc_tmpl_atomic", "tc_tmpl_mat", "tc_bitcast", "tc_attr_binding", "tc_attr_wg", "tc_attr_loc", "tc_attr_builtin", "tc_attr_interp",
@@ -346,15 +354,19 @@ func agConfigs(c *core.Ctx) []agCfg {
 	none := []string{""}
 	cfgs := []agCfg{
 		// the resource interface: every way two entry points use resources that share / reuse (group, binding) pairs
-		{name: "bindings (exhaustive)", kinds: pick2(q, []string{"uniform", "storage_rw", "tex2d"}, []string{"uniform", "storage_rw", "tex2d", "sampler"}),
+		{name: "bindings (exhaustive)", kinds: pick2(q, []string{"uniform", "storage_rw"}, []string{"uniform", "storage_rw", "tex2d", "sampler"}),
 			groups: []int{0}, bindings: []int{0, 1}, maxRes: 2, maxEntries: 2, maxOps: pick(1, 2),
-			stages: pick2(q, []string{"fragment", "compute"}, agAllStages), ops: pick2(q, []string{"read", "write", "tex_load"}, []string{"read", "write", "sample", "tex_load"}),
+			stages: pick2(q, []string{"fragment", "compute"}, agAllStages), ops: pick2(q, []string{"read", "write"}, []string{"read", "write", "sample", "tex_load"}),
 			ctl: top, locs: []int{0}, types: f32, interps: none, orders: one},
 		// every helper shape called from an entry point, both declaration orders (thorough: pairs of shapes, two stages)
 		{name: "helpers (exhaustive)", kinds: []string{"storage_rw"}, groups: []int{0}, bindings: []int{0},
 			maxRes: 1, maxHelpers: pick(1, 2), maxEntries: 1, maxOps: pick(1, 2), shapes: agAllShapes,
 			stages: pick2(q, []string{"compute"}, []string{"compute", "fragment"}), ops: pick2(q, []string{"call"}, []string{"call", "write"}),
 			ctl: top, locs: []int{0}, types: f32, interps: none, orders: []string{"decl_first", "use_first"}},
+		// the one shape that makes the unpatched lowerer die (stack overflow): kept apart so that few programs pay for a worker restart
+		{name: "crash shapes (exhaustive)", kinds: []string{}, groups: []int{0}, bindings: []int{0}, maxHelpers: 1, maxEntries: 1, maxOps: 1,
+			shapes: []string{"shadow_fwd_const_abstract"}, stages: []string{"compute"}, ops: []string{"call"}, ctl: top, locs: []int{0}, types: f32,
+			interps: none, orders: []string{"decl_first", "use_first"}},
 		// the stage interface: built-ins and locations per stage and direction, forms, interpolation
 		{name: "interface (exhaustive)", kinds: []string{}, groups: []int{0}, bindings: []int{0}, maxEntries: 1, maxIO: pick(2, 3),
 			stages: agAllStages, io: []string{"builtin", "loc"}, locs: pick2(q, []int{0}, []int{0, 1}), types: pick2(q, []string{"f32", "u32"}, []string{"f32", "vec4f", "u32"}),
@@ -391,7 +403,7 @@ func agConfigs(c *core.Ctx) []agCfg {
 				cfgs[i].sim = 6
 			}
 		}
-		cfgs = []agCfg{cfgs[1], cfgs[3], cfgs[5], cfgs[6], cfgs[7], cfgs[8]}
+		cfgs = []agCfg{cfgs[1], cfgs[2], cfgs[4], cfgs[6], cfgs[7], cfgs[8], cfgs[9]}
 	}
 	return cfgs
 }
@@ -604,12 +616,12 @@ func runC08(tier, replay string) int {
 	descs = append(descs, simDescs...)
 	seenSrc := map[string]bool{}
 	for _, d := range descs {
-		src := renderAccept(d)
+		src, pcs := renderAcceptPC(d)
 		if seenSrc[src] {
 			continue
 		}
 		seenSrc[src] = true
-		progs = append(progs, &acProg{Family: "accept", Name: "accept", Src: src, Claim: allClaims, Spec: d, Constr: d.constructs()})
+		progs = append(progs, &acProg{Family: "accept", Name: "accept", Src: src, Claim: allClaims, Spec: d, Constr: d.constructs(), Consts: pcs})
 	}
 	c.Cov["accept_programs"] = len(progs)
 
@@ -676,13 +688,11 @@ func runC08(tier, replay string) int {
 
 	lap("families_corpus")
 	// ---- replay into the real naga ----------------------------------------------------------------------------------
-	core.ParMap(len(progs), core.Cores(), func(i int) {
-		p := progs[i]
-		// the whole catalogue for the corpus and every 4th generated program; the default option sets
-		// plus a rotating third of the catalogue for the others (announced to the trace spec in `sel`)
-		full := p.Family == "corpus" || i%4 == 0
-		replayAccept(p, full, i)
-	})
+	// (in worker processes: a fatal error inside naga kills a worker, not the check; the call it died in is recorded as a
+	// rejection "process crash" of that program and the worker is restarted behind it)
+	if !c08ReplayInWorkers(c, progs) {
+		return c.Finish()
+	}
 
 	lap("replay")
 	// ---- trace validation ---------------------------------------------------------------------------------------------
